@@ -22,6 +22,7 @@ static bool on = false;
 static const uint8_t *ch = nullptr;
 static size_t chn = 0, chi = 0, nsw = 0, npts = 0;
 static size_t nspurious = 0;
+static long long vclock_ns = 0;                           // virtual wall clock (see clock_gettime below)
 static std::vector<uint8_t> wid;                          // number of alternatives at every consumed choice
 static std::map<const void *, int> owner;                // mutex -> tid (absent = free)
 static std::map<const void *, std::deque<int>> waiters;  // cv -> tids
@@ -100,6 +101,7 @@ static void block() { switch_to(pick(false), true); }
 void begin(const uint8_t *c, size_t n) {
     ths.clear(); owner.clear(); waiters.clear();
     ch = c; chn = n; chi = 0; nsw = 0; npts = 0; nspurious = 0; wid.clear();
+    vclock_ns = 1700000000LL * 1000000000LL;
     Th *t = new Th; t->id = 0; sem_init(&t->sem, 0, 0); t->real = pthread_self();
     ths.push_back(t); me = t; cur = 0; on = true;
 }
@@ -120,6 +122,7 @@ size_t choices_used() { return chi; }
 size_t switches() { return nsw; }
 size_t points() { return npts; }
 size_t spurious_wakeups() { return nspurious; }
+void advance_time_ms(long ms) { vclock_ns += (long long)ms * 1000000LL; }
 const std::vector<uint8_t> &widths() { return wid; }
 
 static void *tramp(void *p) {
@@ -232,6 +235,13 @@ int pthread_join(pthread_t th, void **ret) {
     while (tg->st != FINISHED) { me->st = B_JOIN; me->obj = tg; block(); }
     me->st = RUNNABLE; me->obj = nullptr;
     return rj(th, ret);
+}
+// Inside a run the wall clock is virtual: it only moves when the harness says so (vsched::advance_time_ms).  ThreadPool's
+// expiry logic (std::chrono::system_clock -> clock_gettime) thereby becomes a pure function of the case.
+int clock_gettime(clockid_t id, struct timespec *ts) {
+    if (!on || !me) { static auto f = real<int (*)(clockid_t, struct timespec *)>("clock_gettime"); return f(id, ts); }
+    ts->tv_sec = (time_t)(vclock_ns / 1000000000LL); ts->tv_nsec = (long)(vclock_ns % 1000000000LL);
+    return 0;
 }
 int sched_yield(void) {
     if (!on || !me) PASS("sched_yield", (void));
